@@ -15,6 +15,7 @@ BARE_OK = {
     ("mos_core::parser::multiline_trivia", "\r"): "inside trivia",
     ("mos_core::parser::multiline_trivia", "\n"): "inside trivia",
     ("mos_core::parser::identifier_name", "_"): "inside an identifier",
+    ("mos_core::parser::identifier_char", "_"): "a character inside an identifier; used as a negative lookahead after `true` / `false`",
     ("mos_core::parser::identifier_scope", "-"): "the whole path is wrapped by its callers",
     ("mos_core::parser::identifier_scope", "+"): "the whole path is wrapped by its callers",
     ("mos_core::parser::identifier_path", "."): "no blanks inside a dotted path (by design)",
@@ -45,6 +46,10 @@ def terminals(g, wrapped=False, mapped_const=False, out=None):
         out.append((g, wrapped, mapped_const))
         return out
     if h in ("ws", "mws"):
+        terminals(g[1], True, mapped_const, out)
+        return out
+    if h == "not":
+        # a negative lookahead consumes nothing: what it looks for directly after the previous terminal needs no trivia in front
         terminals(g[1], True, mapped_const, out)
         return out
     if h == "map":
